@@ -124,7 +124,7 @@ func c06Value(d Directive, v *Val, wi int, seen func(string)) string {
 	}
 	// characters are those fmt prints for x
 	hookOn := rfmt.VerifHookInstalled()
-	if v.Fmt && !(hookOn && w.Outer == 0) && d.Verb != 'w' && !d.zeroMeetsMinus() && !(v.PanicMid && (d.Wid != 0 || d.Prec != 0)) {
+	if (v.Fmt || (v.UnsafeFmt && w.Outer == 1)) && !(hookOn && w.Outer == 0) && d.Verb != 'w' && !d.zeroMeetsMinus() && !(v.PanicMid && (d.Wid != 0 || d.Prec != 0)) {
 		var ref string
 		if _, panF := recoverTo(func() { ref = fmt.Sprintf(f, append(append([]interface{}{}, stars...), x)...) }); !panF {
 			got, want := Strip(o), Esc([]byte(ref))
